@@ -437,6 +437,13 @@ def write_replay(pid, fail, idx):
     return path
 
 
+def evidence_dir():
+    """evidence/ is only written by checks of /repo itself; runs against a scratch tree write elsewhere."""
+    if COQ == COQ_SRC:
+        return os.path.join(VERIF, 'evidence')
+    return os.path.join(BUILD, 'evidence_alt', os.path.basename(COQ))
+
+
 def clean_work(ctx):
     """Remove the previous run's shard files (disk space)."""
     for fn in os.listdir(ctx.work):
@@ -568,8 +575,9 @@ def run_check(pid, tier, seed, mod):
         'wall_s': round(wall, 2),
         'violations': len(real),
     }
-    os.makedirs(os.path.join(VERIF, 'evidence'), exist_ok=True)
-    with open(os.path.join(VERIF, 'evidence', pid + '.json'), 'w') as f:
+    evdir = evidence_dir()
+    os.makedirs(evdir, exist_ok=True)
+    with open(os.path.join(evdir, pid + '.json'), 'w') as f:
         json.dump(ev, f, indent=1, default=str)
 
     for line in known_lines:
